@@ -30,6 +30,7 @@ type Ctx struct {
 	LockInvs  map[string]*LockInv     // key: structkey
 	LockInvPkg map[string]*types.Package
 	Lemmas    []*Lemma
+	Axioms    []Clause
 	LemmaPkg  map[string]*packages.Package
 	SpecFiles []*SpecFile
 	famSorts  map[string]Sort
@@ -317,6 +318,9 @@ func (c *Ctx) addSpecFile(sf *SpecFile, p *packages.Package) error {
 		if p != nil {
 			c.LemmaPkg["ghost:"+g.Name] = p
 		}
+	}
+	if p == nil {
+		c.Axioms = append(c.Axioms, sf.Axioms...)
 	}
 	for _, l := range sf.Lemmas {
 		c.Lemmas = append(c.Lemmas, l)
